@@ -11,6 +11,7 @@ from calmjs.parse.ruletypes import Token
 from calmjs.parse.ruletypes import Structure
 from calmjs.parse.ruletypes import Layout
 from calmjs.parse.ruletypes import LayoutChunk
+from calmjs.parse.ruletypes import StreamFragment
 
 
 def optimize_structure_handler(rule, handler):
@@ -358,28 +359,56 @@ def walk(dispatcher, node, definition=None):
                 yield chunk_from_layout
                 prev_text = chunk_from_layout.text
 
+    # Fragments produced by layout handlers do not name their source, as
+    # an unnamed source stands for the source of the previous fragment.
+    # Name it where that would be some other source (or none at all):
+    # the source in effect where the layout rule was encountered.
+    def with_source(fragments, layout_source, effective):
+        for fragment in fragments:
+            if not isinstance(fragment, StreamFragment):
+                yield fragment
+                continue
+            text, lineno, colno, name, source = fragment
+            if source is None and lineno and colno and (
+                    layout_source is not effective[0]):
+                source = layout_source
+                fragment = StreamFragment(text, lineno, colno, name, source)
+            if source is not None:
+                effective[0] = source
+            yield fragment
+
     # The top level walker implementation
     def walk():
         last_chunk = None
         layout_rule_chunks = []
+        # the source in effect for the first of the cached layout rule
+        # chunks, and the source the latest fragment is attributed to.
+        layout_source = [None]
+        effective = [None]
 
         for chunk in _walk(dispatcher, node, definition):
             if isinstance(chunk, LayoutChunk):
+                if not layout_rule_chunks:
+                    layout_source[0] = sourcepath_stack[-1]
                 layout_rule_chunks.append(chunk)
             else:
                 if has_layout:
                     # process layout rule chunks that had been cached.
-                    for chunk_from_layout in process_layouts(
-                            layout_rule_chunks, last_chunk, chunk):
+                    for chunk_from_layout in with_source(process_layouts(
+                            layout_rule_chunks, last_chunk, chunk),
+                            layout_source[0], effective):
                         yield chunk_from_layout
                 layout_rule_chunks[:] = []
                 yield chunk
+                if getattr(chunk, 'source', None) is not None:
+                    effective[0] = chunk.source
                 last_chunk = chunk
 
         if has_layout:
             # process the remaining layout rule chunks.
-            for chunk_from_layout in process_layouts(
-                    layout_rule_chunks, last_chunk, None):
+            for chunk_from_layout in with_source(process_layouts(
+                    layout_rule_chunks, last_chunk, None),
+                    layout_source[0], effective):
                 yield chunk_from_layout
 
     for chunk in walk():
